@@ -1,6 +1,7 @@
 import SSDriver.Util
 import SSModel.ExcTable
 import SSModel.Localsplus
+import SSModel.ExitSelf
 namespace SS.Drv.C01
 open Lean SS.ExcTable SS.Drv
 
@@ -15,7 +16,22 @@ def toEntry (v : View) : Entry :=
 def strList (j : Json) (k : String) : Except String (List String) := do
   (← jArr (← jField j k)).toList.mapM jStr
 
+def handleExitSelf (j : Json) : Except String String := do
+  let s : SS.ExitSelf.Sig := { positional := ← strList j "positional", kwonly := ← strList j "kwonly",
+                               varargs := (j.getObjValAs? String "varargs").toOption }
+  let deleted ← jBool (← jField j "deleted")
+  -- the exit call: exit(self = 0, 1, 2, 3); keyword-only defaults are objects 10, 11, …
+  match SS.ExitSelf.bindCall s [0, 1, 2, 3] ((List.range s.kwonly.length).map (· + 10)) with
+  | none => pure "typeerror"
+  | some ls =>
+    let ls := if deleted then (match s.positional with | p :: _ => ls.filter (fun q => q.1 != p) | [] => ls) else ls
+    pure (match SS.ExitSelf.exitingObj s ls with
+      | some 0 => "self"
+      | some i => s!"other:{i}"
+      | none => "none")
+
 def handle (j : Json) : Except String String := do
+  if (j.getObjVal? "k" >>= Json.getStr?).toOption == some "exitself" then return (← handleExitSelf j)
   if (j.getObjVal? "k" >>= Json.getStr?).toOption == some "nlocalsplus" then
     -- several code objects at once: [[varnames, cellvars, freevars], ...] → the slot counts
     let cs ← (← jArr (← jField j "codes")).toList.mapM (fun c => do
